@@ -19,7 +19,7 @@ type JNode struct {
 	S    string   // str: decoded value; num: literal; bool: "true"/"false"
 }
 
-var jsonKeys = []string{"a", "b", "c", "id", "name", "user", "items", "x.y", "we*rd", "q?", `back\slash`, `quo"te`, "ünï", "sp ace", "A", "0", "created_at", "nested", "k1", "k2", "k3", "k4"}
+var jsonKeys = []string{"a", "b", "c", "id", "name", "user", "items", "x.y", "we*rd", "q?", `back\slash`, `quo"te`, "ünï", "sp ace", "A", "0", "created_at", "nested", "k1", "k2", "k3", "k4", "%keys", "pct%"}
 var jsonStrs = []string{"", "hello", "with \"quotes\"", "line\nbreak", "tab\there", "ünïcödé ✓", `back\slash`, "2024-01-01T00:00:00Z", "---", "[TestA - 1]", "<Any value>", "/slash", " sep", "emoji 🎉", "null", "123"}
 var jsonNums = []string{"0", "-0", "1", "-1", "42", "3.14", "1e10", "1E+2", "1e-7", "0.000001", "12345678901234567890123", "1e400", "-2.5e-3", "100", "7"}
 
